@@ -412,9 +412,10 @@ func (r *Run) c09CountOffspring() {
 func (r *Run) c09Stagnation(fn *ssa.Function, tm *Termer, loops []*Loop) {
 	p := r.P
 	fit := p.Field(PkgG, "Organism", "Fitness")
-	li := p.Func(PkgG, "Species.lastImproved")
+	// the getter is optional: a tree that spells Age-AgeOfLastImprovement out has no call to inline
+	li := p.FuncOpt(PkgG, "Species.lastImproved")
 	inline := func(c *ssa.Call) (Lin, bool) {
-		if c.Call.StaticCallee() != li {
+		if li == nil || c.Call.StaticCallee() != li {
 			return Lin{}, false
 		}
 		// the getter must be Age - AgeOfLastImprovement of its receiver
@@ -532,7 +533,7 @@ func (r *Run) c09Stagnation(fn *ssa.Function, tm *Termer, loops []*Loop) {
 				reads = append(reads, in)
 			}
 		case *ssa.Call:
-			if x.Call.StaticCallee() == li {
+			if li != nil && x.Call.StaticCallee() == li {
 				reads = append(reads, in)
 			}
 		}
